@@ -384,7 +384,35 @@ class Analysis:
                     out.append(f"subscript {ast.unparse(e)} may raise")
             elif isinstance(e, ast.Delete):
                 out.append("del may raise")
+            elif isinstance(e, ast.Attribute) and isinstance(e.ctx, ast.Load) and e.attr in ("__qualname__", "__name__") and not self._is_class_valued(func, e.value):
+                # functions and classes have them; arbitrary callables (instances with
+                # __call__, functools.partial, Mock, operator.methodcaller) do not
+                out.append(f"`{ast.unparse(e)}` may raise AttributeError (callable objects other than functions / classes have no {e.attr})")
         return out
+
+    def _is_class_valued(self, func: FuncInfo, v) -> bool:
+        """The expression is known to be a class (or the receiver of the access is `type(x)`,
+        `x.__class__`, a name bound to one of those / checked with isclass())."""
+        if isinstance(v, ast.Call) and isinstance(v.func, ast.Name) and v.func.id == "type" and len(v.args) == 1:
+            return True
+        if isinstance(v, ast.Attribute) and v.attr == "__class__":
+            return True
+        if isinstance(v, ast.Name):
+            r = self.r.resolve_name(func, v.id)
+            if isinstance(r, ClassInfo):
+                return True
+            srcs = []
+            for x in walk_own(func.node):
+                if isinstance(x, ast.Assign) and any(isinstance(t, ast.Name) and t.id == v.id for t in x.targets):
+                    srcs.append(x.value)
+                elif isinstance(x, (ast.For, ast.AsyncFor)) and any(isinstance(t, ast.Name) and t.id == v.id for t in ast.walk(x.target)):
+                    srcs.append(None)
+            if srcs and all(s_ is not None and (self._is_class_valued(func, s_) if not isinstance(s_, ast.Name) else any(isinstance(c, ast.Call) and isinstance(c.func, ast.Name) and c.func.id == "isclass" and c.args and isinstance(c.args[0], ast.Name) and c.args[0].id == s_.id for c in walk_own(func.node))) for s_ in srcs):
+                return True
+            ann = func.param_annotation(v.id) if v.id in func.params else None
+            if ann is not None and ast.unparse(ann).startswith(("type", "Type")):
+                return True
+        return False
 
     def _subscript_safe(self, func: FuncInfo, e: ast.Subscript) -> bool:
         # generic alias subscripts like create_memory_object_stream[T], set[Context]
